@@ -257,6 +257,9 @@ impl Workload {
             job.read_access
         );
 
+        #[cfg(fontc_verif)]
+        verif::ins(&job);
+
         self.job_count += 1;
         self.count_pending
             .entry(job.id.discriminant())
@@ -288,6 +291,8 @@ impl Workload {
                 running: false,
             });
         }
+        #[cfg(fontc_verif)]
+        verif::also(&job.id, &also_completes);
         if !also_completes.is_empty() {
             self.also_completes.insert(job.id.clone(), also_completes);
         }
@@ -297,6 +302,8 @@ impl Workload {
 
     fn complete_one(&mut self, id: AnyWorkId) {
         trace!("complete_one {id:?}");
+        #[cfg(fontc_verif)]
+        verif::job_event("complete", &id);
         if self.jobs_pending.remove(&id).is_none() {
             panic!("{id:?} completed but isn't pending!");
         }
@@ -336,6 +343,8 @@ impl Workload {
 
         if !glyph.emit_to_binary {
             trace!("Skipping execution of {be_id:?}; it does not emit to binary");
+            #[cfg(fontc_verif)]
+            verif::job_event("skip", &be_id);
             for counter in self.counters(&be_id) {
                 counter.fetch_sub(1, Ordering::AcqRel);
             }
@@ -366,6 +375,8 @@ impl Workload {
             "Updating {be_id:?} deps from {:?} to {deps:?}",
             be_job.read_access
         );
+        #[cfg(fontc_verif)]
+        verif::rewrite(&be_id, &deps);
         be_job.read_access = deps
     }
 
@@ -377,6 +388,8 @@ impl Workload {
         timing: JobTime,
     ) -> Result<(), Error> {
         log::debug!("{success:?} successful");
+        #[cfg(fontc_verif)]
+        let _verif_hs = verif::HandleSuccess::begin(&success);
 
         self.timer.add(timing);
 
@@ -408,6 +421,8 @@ impl Workload {
                 .get_mut(&BeWorkIdentifier::Glyf.into())
                 .expect("Glyf has to be pending");
             glyf_loca_job.read_access = glyf_loca_deps.build().into();
+            #[cfg(fontc_verif)]
+            verif::rewrite(&glyf_loca_job.id, &glyf_loca_job.read_access);
 
             // Resolve the Access::Unknown for gvar, same race as glyf/loca; see issue #1436
             let mut gvar_deps = AccessBuilder::<AnyWorkId>::new()
@@ -422,6 +437,8 @@ impl Workload {
                 .get_mut(&BeWorkIdentifier::Gvar.into())
                 .expect("Gvar has to be pending");
             gvar_job.read_access = gvar_deps.build().into();
+            #[cfg(fontc_verif)]
+            verif::rewrite(&gvar_job.id, &gvar_job.read_access);
         }
 
         if let AnyWorkId::Fe(FeWorkIdentifier::KerningLocations) = success {
@@ -444,6 +461,13 @@ impl Workload {
                 .variant(FeWorkIdentifier::KernInstance(NormalizedLocation::default()))
                 .build()
                 .into();
+            #[cfg(fontc_verif)]
+            if let Some(job) = self
+                .jobs_pending
+                .get(&AnyWorkId::Be(BeWorkIdentifier::GatherIrKerning))
+            {
+                verif::rewrite(&job.id, &job.read_access);
+            }
         }
 
         if let AnyWorkId::Be(BeWorkIdentifier::GatherIrKerning) = success {
@@ -464,6 +488,13 @@ impl Workload {
                 .variant(FeWorkIdentifier::StaticMetadata)
                 .build()
                 .into();
+            #[cfg(fontc_verif)]
+            if let Some(job) = self
+                .jobs_pending
+                .get(&AnyWorkId::Be(BeWorkIdentifier::GatherBeKerning))
+            {
+                verif::rewrite(&job.id, &job.read_access);
+            }
         }
 
         if let AnyWorkId::Fe(FeWorkIdentifier::Glyph(glyph_name)) = success {
@@ -606,6 +637,8 @@ impl Workload {
 
             while self.success.len() < self.job_count {
                 // Spawn anything that is currently executable (has no unfulfilled dependencies)
+                #[cfg(fontc_verif)]
+                verif::poll("wave");
                 self.update_launchable(&mut launchable);
                 if launchable.is_empty() && !self.jobs_pending.values().any(|j| j.running) {
                     if log::log_enabled!(log::Level::Warn) {
@@ -638,6 +671,8 @@ impl Workload {
 
                             let job = self.jobs_pending.get_mut(id).unwrap();
                             log::trace!("Start {id:?}");
+                            #[cfg(fontc_verif)]
+                            verif::launch(job, nth_wave);
                             job.running = true;
 
                             let mut work =
@@ -678,6 +713,8 @@ impl Workload {
                                 panic!("Spawned more jobs than items available to run");
                             };
                             let id = work.id();
+                            #[cfg(fontc_verif)]
+                            let _verif_actor = verif::JobActor::start(&id);
                             let timing = timing.run();
                             if abort.load(Ordering::Relaxed) {
                                 log::trace!("Aborting {id:?}");
@@ -712,12 +749,16 @@ impl Workload {
                             // before our success result has passed through the channel
                             // At peak times, such as completion of tons of glyphs, the channel seems
                             // to have tens of ms of delay.
+                            #[cfg(fontc_verif)]
+                            verif::job_end(&id, result.is_ok());
                             if result.is_ok() {
                                 for counter in counters {
                                     counter.fetch_sub(1, Ordering::AcqRel);
                                 }
                             }
                             let timing = timing.complete();
+                            #[cfg(fontc_verif)]
+                            verif::before_send(&id);
 
                             if let Err(e) = send.send((id.clone(), result, timing)) {
                                 log::error!("Unable to write {id:?} to completion channel: {e}");
@@ -729,6 +770,8 @@ impl Workload {
 
                 // Complete everything that has reported since our last check
                 if successes.is_empty() {
+                    #[cfg(fontc_verif)]
+                    verif::poll("recv");
                     let timing = self
                         .timer
                         .create_timer(AnyWorkId::InternalTiming("rc"), nth_wave)
@@ -814,6 +857,8 @@ impl Workload {
             },
         };
         while let Some((completed_id, result, timing)) = opt_complete.take() {
+            #[cfg(fontc_verif)]
+            verif::recv(&completed_id, result.is_ok());
             if !match result {
                 Ok(..) => {
                     if !self.success.contains(&completed_id) {
@@ -957,5 +1002,195 @@ fn get_panic_message(msg: Box<dyn std::any::Any + Send + 'static>) -> String {
             Some(s) => s.to_owned(),
             None => "Box<dyn Any>".to_owned(),
         },
+    }
+}
+
+/// Event-log hooks for the scheduler; see `fontdrasil::orchestration::verif`.
+#[cfg(fontc_verif)]
+mod verif {
+    use fontbe::orchestration::AnyWorkId;
+    use fontdrasil::orchestration::{
+        Access, AccessType, Identifier,
+        verif::{enabled, jid, jitter, js, record, set_actor},
+    };
+
+    use super::Job;
+    use crate::work::{AnyAccess, AnyWork};
+
+    fn acc_types<I: Identifier>(access: &Access<I>) -> String {
+        fn one<I: Identifier>(kind: &str, id: &I) -> String {
+            format!(
+                "{{\"k\":{},\"id\":{},\"disc\":{}}}",
+                js(kind),
+                js(&format!("{id:?}")),
+                js(id.discriminant())
+            )
+        }
+        match access {
+            Access::None => "\"none\"".to_string(),
+            Access::Unknown => "\"unknown\"".to_string(),
+            Access::All => "\"all\"".to_string(),
+            Access::SpecificInstanceOfVariant(id) => format!("[{}]", one("specific", id)),
+            Access::Variant(id) => format!("[{}]", one("variant", id)),
+            Access::Set(ids) => {
+                let mut parts: Vec<_> = ids
+                    .iter()
+                    .map(|id| match id {
+                        AccessType::SpecificInstanceOfVariant(id) => one("specific", id),
+                        AccessType::Variant(id) => one("variant", id),
+                    })
+                    .collect();
+                parts.sort();
+                format!("[{}]", parts.join(","))
+            }
+        }
+    }
+
+    fn acc(access: &AnyAccess) -> String {
+        match access {
+            AnyAccess::Fe(access) => acc_types(access),
+            AnyAccess::Be(access) => acc_types(access),
+        }
+    }
+
+    pub(super) fn ins(job: &Job) {
+        if !enabled() {
+            return;
+        }
+        let kind = match job.work {
+            AnyWork::Fe(..) | AnyWork::Be(..) => "work",
+            AnyWork::Nop(..) => "nop",
+            AnyWork::AlsoComplete(..) => "also",
+        };
+        record(
+            "ins",
+            &format!(
+                "\"job\":{},\"kind\":{},\"reads\":{},\"writes\":{}",
+                jid(&job.id),
+                js(kind),
+                acc(&job.read_access),
+                acc(&job.write_access)
+            ),
+        );
+    }
+
+    pub(super) fn also(id: &AnyWorkId, also: &[AnyWorkId]) {
+        if !enabled() || also.is_empty() {
+            return;
+        }
+        let also: Vec<_> = also.iter().map(jid).collect();
+        record(
+            "also",
+            &format!("\"job\":{},\"also\":[{}]", jid(id), also.join(",")),
+        );
+    }
+
+    pub(super) fn rewrite(id: &AnyWorkId, reads: &AnyAccess) {
+        if !enabled() {
+            return;
+        }
+        record(
+            "rewrite",
+            &format!("\"job\":{},\"reads\":{}", jid(id), acc(reads)),
+        );
+    }
+
+    pub(super) fn job_event(kind: &str, id: &AnyWorkId) {
+        if !enabled() {
+            return;
+        }
+        record(kind, &format!("\"job\":{}", jid(id)));
+    }
+
+    pub(super) fn launch(job: &Job, wave: usize) {
+        if !enabled() {
+            return;
+        }
+        record(
+            "launch",
+            &format!(
+                "\"job\":{},\"wave\":{wave},\"reads\":{},\"writes\":{}",
+                jid(&job.id),
+                acc(&job.read_access),
+                acc(&job.write_access)
+            ),
+        );
+    }
+
+    /// A point at which the scheduler looks at the world; also a jitter point.
+    pub(super) fn poll(what: &str) {
+        jitter(what);
+        if enabled() {
+            record("poll", &format!("\"at\":{}", js(what)));
+        }
+    }
+
+    pub(super) fn recv(id: &AnyWorkId, ok: bool) {
+        if !enabled() {
+            return;
+        }
+        record("recv", &format!("\"job\":{},\"ok\":{ok}", jid(id)));
+    }
+
+    /// Recorded *before* the counters are decremented, so a launch that relied on the
+    /// decrement is always later in the log than this event.
+    pub(super) fn job_end(id: &AnyWorkId, ok: bool) {
+        jitter("end");
+        if enabled() {
+            record("end", &format!("\"job\":{},\"ok\":{ok}", jid(id)));
+        }
+    }
+
+    pub(super) fn before_send(id: &AnyWorkId) {
+        jitter("send");
+        if enabled() {
+            record("send", &format!("\"job\":{}", jid(id)));
+        }
+    }
+
+    /// Attributes accesses on this worker thread to the job until dropped.
+    pub(super) struct JobActor {
+        prev: String,
+    }
+
+    impl JobActor {
+        pub(super) fn start(id: &AnyWorkId) -> Self {
+            let prev = set_actor(format!("job:{id:?}"));
+            jitter("start");
+            if enabled() {
+                record("start", &format!("\"job\":{}", jid(id)));
+            }
+            JobActor { prev }
+        }
+    }
+
+    impl Drop for JobActor {
+        fn drop(&mut self) {
+            set_actor(std::mem::take(&mut self.prev));
+        }
+    }
+
+    /// Attributes accesses made by the scheduler to `hs:<id>` until dropped.
+    pub(super) struct HandleSuccess {
+        prev: String,
+    }
+
+    impl HandleSuccess {
+        pub(super) fn begin(id: &AnyWorkId) -> Self {
+            let prev = set_actor(format!("hs:{id:?}"));
+            if enabled() {
+                record("hs_begin", &format!("\"job\":{}", jid(id)));
+            }
+            HandleSuccess { prev }
+        }
+    }
+
+    impl Drop for HandleSuccess {
+        fn drop(&mut self) {
+            if enabled() {
+                record("hs_end", "");
+            }
+            set_actor(std::mem::take(&mut self.prev));
+        }
     }
 }
